@@ -107,6 +107,32 @@ CLAIMED = {
                 "Not proved: 3-D vertex coordinates, float ceil/division in the third descriptor form (validated by the oracle).",
         "design_ref": "DESIGN.md §7 C12, §3.4",
     },
+    "C19": {
+        "text": "Lean 4 theorems over a model with one definition per Rust impl block: every compound-assignment / by-reference operator equals "
+                "its binary counterpart (any coordinate type); over any field v-v=0, (v+u)-v=u, dot symmetric, cross antisymmetric and "
+                "orthogonal, orientation = shoelace sign with swap/cyclic laws, average symmetric and between; unit_dir/normal_dir fail iff "
+                "null vector and over the reals return a unit vector parallel resp. quarter-turn CCW; under an explicit rounding-model "
+                "hypothesis structure: fl(v-v)=0, the (v+u)-v bound, the orientation sign outside an explicit band; skewness in [0,1), "
+                "0 iff equiangular, invariant under rotation/reversal of the corner list and similarities. Tie: ~60 operators run on the "
+                "real crates with exact dyadic inputs vs the model (identical), plus random f32/f64 oracles evaluated with exact Fractions.",
+        "note": "Trusted: Lean kernel + 3 standard axioms; single Mathlib modules in proof files. Not proved: that IEEE arithmetic "
+                "satisfies the rounding model; accuracy of hypot/sqrt/acos; polygon angle sum (hypothesis). Defect D12 (Vector2 -=) found "
+                "and repaired (commit 90eb331).",
+        "design_ref": "DESIGN.md §7 C19",
+    },
+    "C20": {
+        "text": "Lean 4 theorems (2-D, WF map with closed faces): the start-up system does not panic on embedded maps; vertex entities = "
+                "iter_vertices; index_map injective/onto and table[index_map v] = coordinates of v; dart start/end rows = rows of "
+                "vertexId d / vertexId (b1 d); edge ends; face corner list = index_map of vertex ids along the b1-cycle; exactly one dart "
+                "entity per in-use dart; 3-D: vertex/edge/face entity and dart start statements conditional on success. Tie: a headless "
+                "bevy App (MinimalPlugins) runs the REAL extract_data_from_map / _3d_map systems (harness-render); the dumped world is "
+                "diffed against the model's scene on exhaustive WF 2-maps n<=4, 3-maps n<=3, meshes, edit histories, polyhedra; "
+                "independent Python oracle; normals checked finite/unit on the real output.",
+        "note": "Trusted: Lean kernel + 3 standard axioms; bevy ECS command application; hook cfg(honeycomb_verif) accessors for Dart. Not "
+                "proved: normal vectors (oracle only; known finding D20a: NaN face normals at straight corners in 3-D), 3-D dart end / "
+                "corner order / two-sided enumeration (correspondence only).",
+        "design_ref": "DESIGN.md §7 C20",
+    },
 }
 
 REASONS_NOT_YET = "check not built yet in this round (planned, see DESIGN.md §7); no claim is made"
